@@ -21,6 +21,9 @@ def classifyL {α : Type} [BEq α] (st : St) (model : LibCfg → α) (accepts0 :
   let cfg := st.lib
   let accepts (o : α) : Bool := if st.mode == "nopanic" then !isPanic o else accepts0 o
   let m := model cfg
+  if st.mode == "fixedcheck" then
+    (let mf := model LibCfg.fixed
+     if (isPanic mf && nilPanicClass.isSome) || accepts0 mf then "agree" else "model-viol FIXED-MODEL " ++ sh mf) else
   if impl == m then
     -- nil pointers on the way (map[string]any trees): outside C18, a listed finding for C02
     if isPanic m && nilPanicClass.isSome then
@@ -123,6 +126,7 @@ def stringsOpLoop (st : St) (b : String) (parts : List (List String)) : String :
           let e : Node := if isBRep b then .slice { typn := "[]byte" } (.basic { typn := "byte", typu := "byte" })
                           else .basic { typn := "string", typu := "string" }
           let acc (o : LoopObs) : Bool :=
+            if f == .nilPtr then true else
             if !(o == impl) then false else
             match f with
             | .val | .ptr =>
